@@ -187,18 +187,25 @@ package sourceaddrs
 //@   sweep
 
 //@ func (RemoteSource).String -> (r)
+//@   pure
 //@   sweep
 //@ func (RemotePackage).String -> (r)
+//@   pure
 //@   sweep
 //@ func (RemotePackage).subPathString -> (r)
+//@   pure
 //@   sweep
 //@ func (RemotePackage).SourceAddr -> (r)
+//@   pure
 //@   sweep
 //@   opt allow-panic=documented: SourceAddr panics on an invalid sub-path by contract; callers are checked through the requires below
 //@   requires C19.validsub: ValidSubPathSpec(subPath)
+//@   ensures C18,C06.sourceaddr: r.pkg == p && r.subPath == ite(subPath == "", "", Clean(subPath))
 //@ func (RegistrySource).String -> (r)
+//@   pure
 //@   sweep
 //@ func (RegistrySourceFinal).String -> (r)
+//@   pure
 //@   sweep
 //@ func ParseRemotePackage -> (r, err)
 //@   pure
